@@ -19,6 +19,8 @@ VARIANTS = (
     + [("quaternion_schur_unified", {"variant": "aed", "aed_window": w}) for w in (2, 3)]
     + [("quaternion_schur_unified", {"variant": "ds", "precompute_shifts": False})]
     + [("quaternion_schur_unified", {"variant": "aed", "precompute_shifts": False, "aed_factor": 1.0})]
+    + [("quaternion_schur_unified", {"variant": "ds", "power_shift_steps": 1})]
+    + [("quaternion_schur_unified", {"variant": "aed", "power_shift_steps": 12})]
     + [("quaternion_schur_experimental", {"variant": v, "window": w}) for v in ("aed_windowed", "francis_ds") for w in (2, 12)]
 )
 
